@@ -32,7 +32,7 @@ ASSUMPTIONS = ["entry points are those reachable by introspection of the modules
 CANARY_TEXT = "CANARY-7f3a9c-SECRET-CONTENT"
 ENTITY_KINDS = ("internal-entity", "external-file-entity", "external-http-entity", "parameter-entity", "billion-laughs",
                 "utf16-internal-entity", "attr-entity")
-OTHER_KINDS = ("external-dtd-only", "xinclude", "xml-stylesheet-pi", "utf16-plain", "utf8-bom")
+OTHER_KINDS = ("external-dtd-only", "attlist-default", "xinclude", "xml-stylesheet-pi", "utf16-plain", "utf8-bom")
 
 
 def canary_paths(scratch):
@@ -116,6 +116,8 @@ def _hostile(doc, scratch):
     astag = (stag[:-2] if selfclosing else stag[:-1]) + ' verifattr="&e;"' + ("/>" if selfclosing else ">")
     yield "attr-entity", ('<!DOCTYPE r [<!ENTITY e "%s-INTERNAL">]>' % CANARY_TEXT + astag + rest).encode()
     yield "external-dtd-only", ('<!DOCTYPE r SYSTEM "file://%s">' % d + stag + rest).encode()
+    # DTD content that changes what the parser hands over without any entity: a default attribute value for the root element
+    yield "attlist-default", ('<!DOCTYPE %s [<!ATTLIST %s verifdefault CDATA "%s-INTERNAL">]>' % (name, name, CANARY_TEXT) + stag + rest).encode()
     yield "xinclude", with_ref('<xi:include xmlns:xi="http://www.w3.org/2001/XInclude" href="file://%s" parse="text"/>' % c).encode()
     yield "xml-stylesheet-pi", ('<?xml-stylesheet type="text/xsl" href="file://%s"?>' % c + stag + rest).encode()
     yield "utf16-plain", ('<?xml version="1.0" encoding="UTF-16"?>' + stag + rest).encode("utf-16")
@@ -161,7 +163,7 @@ def static_call_sites():
     """syntactic inventory of XML parsing call sites in the package (coverage measure, not the oracle)"""
     sites = []
     root = os.path.join(env.SRC, "saml2_tophat")
-    names = {"fromstring", "XML", "parse", "iterparse", "parseString", "make_parser", "ParserCreate", "fromstringlist", "XMLParser"}
+    names = {"fromstring", "XML", "parse", "iterparse", "parseString", "make_parser", "ParserCreate", "fromstringlist", "XMLParser", "DefusedXMLParser", "XMLPullParser"}
     for dp, dn, fns in os.walk(root):
         if "s2repoze" in dp:
             continue
